@@ -46,7 +46,9 @@ class Rec:
         key = f"{rule}|{mechanism}"
         self.viol_by_mech[key] = self.viol_by_mech.get(key, 0) + 1
         if self.viol_by_mech[key] <= 3 and len(self.violations) < self.MAX_VIOL:
-            self.violations.append(dict(rule=rule, mechanism=mechanism, message=str(message)[:1500], replay=replay))
+            import os
+
+            self.violations.append(dict(rule=rule, mechanism=mechanism, message=str(message)[:1500], replay=replay, hashseed=os.environ.get("PYTHONHASHSEED")))
 
     def inconclusive_because(self, why):
         self.inconclusive.append(why)
